@@ -109,9 +109,9 @@ func makeSubject(cfg Cfg, count bool) Subject {
 		off := int(cfg.MapSeed >> 24 % uint64(len(specialFloats)))
 		switch fam {
 		case "set":
-			return newSetSubj(cfg, floatDom(n, cfg.Cmp, off, false), count)
+			return newSetSubj(cfg, floatDom(n, cfg.Cmp, off, cfg.NoNaN), count)
 		case "kv":
-			return makeKV(cfg, floatDom(n, cfg.Cmp, off, false), count)
+			return makeKV(cfg, floatDom(n, cfg.Cmp, off, cfg.NoNaN), count)
 		case "list":
 			return newListSubj(cfg, floatDom(n, cfg.Cmp, off, true))
 		case "sq":
@@ -158,7 +158,8 @@ func floatOK(prop, kind string) bool {
 	case "hashset", "linkedhashset", "hashmap", "linkedhashmap":
 		// (not HashBidiMap: with a NaN key its two Go maps drift apart, which is Go map semantics on a
 		// key that is not equal to itself, outside any documented use)
-		return prop == "C15"
+		// C14: floats without NaN (Cfg.NoNaN): -0 and +0 are one key with two renderings
+		return prop == "C15" || prop == "C14" && (kind == "linkedhashset" || kind == "linkedhashmap")
 	}
 	return false
 }
@@ -208,7 +209,10 @@ func genCfg(r *Rng, kinds []string, tier string) Cfg {
 		cfg.Dom = []int{96, 128, 256, 512}[r.Intn(4)]
 	}
 	if kvIsBidi(cfg.Kind) {
-		cfg.VDom = r.Range(2, 9)
+		cfg.VDom = r.Range(2, 9) // small: every collision kind comes up
+		if r.P(1, 3) {
+			cfg.VDom = r.Range(16, 64) // large: the map (a bijection: at most VDom pairs) grows trees several levels deep
+		}
 	}
 	cfg.MapSeed = r.U64()
 	cfg.Pool = 2
